@@ -268,6 +268,10 @@ class C19(Prop):
             out.append((sx([3, 1 if k % 2 == 0 else 3, text.encode(), b"a\tb"]), ["stored", "stored-supplied-multi"]))
             if not quick:
                 out.append((sx([3, 3 if k % 2 == 0 else 1, text.encode(), b""]), ["stored", "stored-supplied-multi"]))
+        # a supplied schema longer than any reader-side buffer (8 KiB): stored and returned whole
+        longdoc = ('table longdoc\n"' + "documentation " * 700 + '"\n(\n string chrom; "c"\n uint chromStart; "s"\n uint chromEnd; "e"\n lstring note; "n"\n)\n').encode()
+        out.append((sx([3, 1, longdoc, b"x"]), ["stored", "stored-supplied-long"]))
+        out.append((sx([3, 3, longdoc, b"x"]), ["stored", "stored-supplied-long"]))
         out.append((sx([3, 1, b'table t "c" ( enum(a, b', b""]), ["stored", "stored-supplied-d9"]))
         out.append((sx([3, 1, b'table t "c" ( int x; "a\x00b" )', b""]), ["stored", "stored-nul"]))
         rng.shuffle(out)               # spread the heavy batch cases over the shards
